@@ -244,11 +244,19 @@ class ZMQEventLoop(EventLoop):
         """
         with contextlib.suppress(ExitMainLoop):
             while True:
-                try:
-                    self._loop()
-                except zmq.error.ZMQError as exc:  # noqa: PERF203
-                    if exc.errno != errno.EINTR:
-                        raise
+                self._loop()
+
+    def _poll(self, timeout: int | None = None) -> dict | None:
+        """Poller.poll() reporting an interrupted system call as None ("look again").
+
+        Only the wait itself is guarded: a ZMQError raised by a callback must leave run().
+        """
+        try:
+            return dict(self._poller.poll(timeout))
+        except zmq.error.ZMQError as exc:
+            if exc.errno != errno.EINTR:
+                raise
+            return None
 
     def _loop(self) -> None:
         """
@@ -265,13 +273,16 @@ class ZMQEventLoop(EventLoop):
                 timeout = 0
             if self._poller.sockets:
                 # Poller.poll() truncates a float timeout to whole milliseconds: round up, never wake early
-                ready = dict(self._poller.poll(math.ceil(timeout * 1000)))
+                ready = self._poll(math.ceil(timeout * 1000))
             else:
                 # Poller.poll() returns immediately when nothing is registered, whatever the timeout
                 time.sleep(timeout)
                 ready = {}
         else:
-            ready = dict(self._poller.poll())
+            ready = self._poll()
+
+        if ready is None:
+            return
 
         if not ready:
             if state == "idle":
